@@ -19,6 +19,19 @@ constraint that points forward in this order consistent with the schedule.
 import importlib.util, itertools, os, re, sys
 
 _modctr = itertools.count()
+_loaded = []
+
+def unload():
+  """forget the generated modules (and so their classes): pymtl3 assigns `NamedObject.__setattr__` during every
+  elaboration, which costs time proportional to the number of live NamedObject subclasses"""
+  import gc, linecache
+  for modname, path in _loaded:
+    sys.modules.pop(modname, None)
+    linecache.cache.pop(path, None)
+    try: os.remove(path)
+    except OSError: pass
+  del _loaded[:]
+  gc.collect()
 
 # --------------------------------------------------------------------------------------------- generation
 
@@ -244,6 +257,7 @@ def load(workdir, spec, tag):
   sp = importlib.util.spec_from_file_location(modname, path)
   mod = importlib.util.module_from_spec(sp)
   sys.modules[modname] = mod
+  _loaded.append((modname, path))
   sp.loader.exec_module(mod)
   return getattr(mod, cname(spec, sfx))
 
